@@ -120,13 +120,16 @@ INTS = ["0", "7", "12", "-3", "007", " 5", "54"]
 FLTS = ["1.5", "1e3", "-0.25", "10", " 2.5 ", "6.25E+01", "0"]
 
 
-def sections_ok(ishift: int, izone: int, ifl: int, txt: str, date: str, rev: bool) -> bool:
+NUMS = [(INTS[i], INTS[(i + 3) % len(INTS)], FLTS[i]) for i in (1, 3, 4, 5)]  # (shift, zone, float) spellings, distinct per row
+
+
+def sections_ok(inum: int, txt: str, date: str, rev: bool) -> bool:
     """
-    pre: 0 <= ishift < len(INTS) and 0 <= izone < len(INTS) and 0 <= ifl < len(FLTS) and len(txt) <= 2 and len(date) == 8
+    pre: 0 <= inum < len(NUMS) and len(txt) <= 2 and len(date) == 8
     pre: all(ch in "0123456789" for ch in date)
     post: _
     """
-    shift, zone, fl = INTS[ishift], INTS[izone], FLTS[ifl]
+    shift, zone, fl = NUMS[inum]
 
     def order(d):
         return dict(reversed(list(d.items()))) if rev else d
@@ -161,14 +164,16 @@ NAMES = ["VOL-X", "LED-X", "IMG-HH-X", "IMG-HV-X", "IMG-VV-X", "TRL-X"]
 PERMS_PI = [[0, 1, 2, 3, 4, 5, 6, 7, 8, 9], [9, 8, 7, 6, 5, 4, 3, 2, 1, 0], [3, 0, 8, 1, 9, 2, 7, 4, 6, 5], [1, 0, 2, 3, 4, 5, 6, 7, 8, 9], [0, 1, 2, 4, 3, 5, 7, 6, 9, 8]]
 
 
-def product_info_ok(perm: int, ipx1: int, iln1: int, ipx2: int, iln2: int, k: int) -> bool:
+COUNTS = [("7", "12", "54", "0"), ("0", "7", "007", " 5"), ("12", "12", "-3", "54"), (" 5", "0", "7", "7"), ("54", "007", "0", "12")]  # (px1, ln1, px2, ln2)
+
+
+def product_info_ok(perm: int, icount: int, k: int) -> bool:
     """
-    pre: 0 <= perm < len(PERMS_PI) and 3 <= k <= 6
-    pre: 0 <= ipx1 < len(INTS) and 0 <= iln1 < len(INTS) and 0 <= ipx2 < len(INTS) and 0 <= iln2 < len(INTS)
+    pre: 0 <= perm < len(PERMS_PI) and 3 <= k <= 6 and 0 <= icount < len(COUNTS)
     post: _
     """
     # file roles follow the NN numbering, shapes are (pixels, lines) per index - in ANY order of the lines
-    px1, ln1, px2, ln2 = INTS[ipx1], INTS[iln1], INTS[ipx2], INTS[iln2]
+    px1, ln1, px2, ln2 = COUNTS[icount]
     items = [("CntOfL15ProductFileName", str(k))]
     items += [(f"L15ProductFileName{i + 1:02d}", (NAMES[:2] + NAMES[2:2 + k - 3] + NAMES[-1:])[i]) for i in range(k)]
     items += [("NoOfPixels_1", px1), ("NoOfLines_1", ln1), ("NoOfPixels_2", px2), ("NoOfLines_2", ln2), ("ProductFormat", "CEOS"), ("BitPixel", ln1), ("ProductDataSize", px2)]
